@@ -58,6 +58,53 @@ def panic_guards(f):
     return seen
 
 
+def _eqnorm(g):
+    """float a != b is exactly !(a == b): (Ne, v) is (Eq, not v)"""
+    if g[0] == 'cmp' and g[1] == 'Ne':
+        return ('cmp', 'Eq', g[2], g[3], not g[4], g[5])
+    return g
+
+
+def _flat_view(prog, f, depth=0):
+    """partial operations, return sites and rejecting guards of `f`, with in-crate helpers whose value it returns read through:
+    dict(ops=[(name, argument, guards)], rets=[(value, guards)], pguards=[guard], bodies=[keys], opaque=reason|None); all terms and
+    guards are in the frame of `f` (helper parameters replaced by the argument terms), guards are canonical."""
+    from ..structs import subst
+    ops = [(n, a, [canon_guard(c, v) for c, v in f.guards().get(bb, [])]) for bb, n, a, _ in partial_ops(f)]
+    pg = list(panic_guards(f))
+    rets = []
+    bodies = []
+    opaque = None
+    for d in f._defs.get(0, []):
+        v = f.rvalue_term(d[3], d[1]) if d[0] == 'assign' else f.call_term(d[2], d[1])
+        gs = [canon_guard(c, v_) for c, v_ in f.guards().get(d[1], [])]
+        if tag(v) == 'call' and v[1] in prog.pdb.bodies and depth < 2:
+            h = prog.func(v[1])
+            params = {('arg', i + 1, h.names.get(i + 1)): a for i, a in enumerate(v[2])}
+            hv = _flat_view(prog, h, depth + 1)
+            bodies += [v[1]] + hv['bodies']
+
+            def tr(g):
+                if g[0] == 'cmp':
+                    return canon_guard(('bin', g[1], subst(g[2], params), subst(g[3], params), g[5]), g[4])
+                return ('cond', subst(g[1], params), g[2])
+            for n, a, hg in hv['ops']:
+                ops.append((n, subst(a, params), gs + [tr(g) for g in hg]))
+            for rt, hg in hv['rets']:
+                rets.append((subst(rt, params), gs + [tr(g) for g in hg]))
+            pg += [tr(g) for g in hv['pguards']]
+            opaque = opaque or hv['opaque']
+        else:
+            if any(tag(z) == 'local' for z in subterms(v)):
+                opaque = 'return value %s depends on a multi-definition local' % show(v)[:50]
+            rets.append((v, gs))
+    seen = []
+    for g in pg:
+        if g not in seen:
+            seen.append(g)
+    return {'ops': ops, 'rets': rets, 'pguards': seen, 'bodies': bodies, 'opaque': opaque}
+
+
 def run(prog, rep, tier, repo):
     pdb = prog.pdb
     # ------------------------------------------------------------------ D1 box-cox
@@ -65,21 +112,28 @@ def run(prog, rep, tier, repo):
         k = FS + name
         f = prog.func(k)
         key = 'guard-use:%s' % k
+        key2 = 'boxcox-formula:%s' % k
         if f is None:
             rep.viol('guard-use', key, 'function disappeared')
             continue
         rep.touch(k)
-        ops = partial_ops(f)
-        bases = {a for _, _, a, _ in ops}
+        # the function with straight-line in-crate helpers it delegates to read through (everything in the frame of `f`)
+        view = _flat_view(prog, f)
+        for hk in view['bodies']:
+            rep.touch(hk)
+        ops = view['ops']
+        bases = {a for _, a, _ in ops}
         if len(ops) < 2 or len(bases) != 1:
-            rep.undecided('guard-use', key, 'expected ln and powf of one common argument, found %s' % [(n, show(a)) for _, n, a, _ in ops], site_of(f.body))
+            why = 'expected ln and powf of one common argument, found %s' % [(n, show(a)) for n, a, _ in ops]
+            rep.undecided('guard-use', key, why, site_of(f.body))
+            rep.undecided('boxcox-formula', key2, why, site_of(f.body), proof=False)
             continue
         base = next(iter(bases))
         zero = ('const', 'f64', 0.0)
         want = ('cmp', 'Lt', zero, base, True, 'f64')
-        pg = panic_guards(f)
+        pg = view['pguards']
         other = [g for g in pg if g != want]
-        dominated = all(want in [canon_guard(c, v) for c, v in f.guards().get(bb, [])] for bb, _, _, _ in ops)
+        dominated = all(want in gs for _, _, gs in ops)
         if dominated and not other:
             rep.ok('guard-use', key, '%s: ln/powf of %s are dominated by assert(%s) and nothing else rejects inputs' % (name, show(base), show_guard(want)))
             rep.sample('%s: domain value %s, guard %s' % (k, show(base), show_guard(want)))
@@ -90,27 +144,35 @@ def run(prog, rep, tier, repo):
             rep.viol('guard-use', key, '%s additionally rejects inputs through {%s}, which is not the domain test %s > 0' % (
                 name, '; '.join(show_guard(g) for g in other), show(base)), site_of(f.body))
         # value wiring: lambda == 0 -> ln(base); else (base^lambda - 1)/lambda
-        key2 = 'boxcox-formula:%s' % k
         lam = [a for a in (('arg', i + 1, n) for i, n in enumerate(f.body.arg_names())) if a[2] == 'lambda']
-        rets = f.return_values()
-        ok = False
-        if lam and len(rets) == 2:
-            l = lam[0]
-            ln_form = ('call', 'std::f64::<impl f64>::ln', (base,), None)
-            pw = ('bin', 'Div', ('bin', 'Sub', ('call', 'std::f64::<impl f64>::powf', (base, l), None), ('const', 'f64', 1.0), 'f64'), l, 'f64')
-            ok = set(rets) == {ln_form, pw}
-            # the ln form must be taken exactly when lambda == 0
-            if ok:
-                g = f.guards()
-                for s in f.stores():
-                    if s.value == ln_form:
-                        ok = ok and (('bin', 'Eq', l, zero, 'f64'), True) in g.get(s.bb, [])
-                    elif s.value == pw:
-                        ok = ok and (('bin', 'Eq', l, zero, 'f64'), False) in g.get(s.bb, [])
-        if ok:
+        rets = view['rets']
+        if not lam or view['opaque']:
+            rep.undecided('boxcox-formula', key2, 'return sites not read (%s)' % (view['opaque'] or 'no parameter named lambda'), site_of(f.body), proof=False)
+            continue
+        l = lam[0]
+        ln_form = ('call', 'std::f64::<impl f64>::ln', (base,), None)
+        pw = ('bin', 'Div', ('bin', 'Sub', ('call', 'std::f64::<impl f64>::powf', (base, l), None), ('const', 'f64', 1.0), 'f64'), l, 'f64')
+        is0 = ('cmp', 'Eq', *sorted([l, zero], key=repr), True, 'f64')
+        not0 = is0[:4] + (False, 'f64')
+        problems = []
+        for rt, gs in rets:
+            gs = [_eqnorm(g) for g in gs]
+            if rt == ln_form:
+                if is0 not in gs:
+                    problems.append('ln(%s) is returned without lambda == 0 being established' % show(base))
+            elif rt == pw:
+                if not0 not in gs:
+                    problems.append('the power form is returned without lambda != 0 being established')
+            else:
+                problems.append('returned form %s is neither ln(v) nor (v^lambda - 1)/lambda' % show(rt)[:80])
+        if not any(rt == ln_form for rt, _ in rets):
+            problems.append('no return site yields ln(%s)' % show(base))
+        if not any(rt == pw for rt, _ in rets):
+            problems.append('no return site yields the power form')
+        if not problems:
             rep.ok('boxcox-formula', key2, 'ln(v) at lambda == 0, (v^lambda - 1)/lambda otherwise, v = %s' % show(base))
         else:
-            rep.viol('boxcox-formula', key2, 'returned forms are %s' % [show(r) for r in rets], site_of(f.body))
+            rep.viol('boxcox-formula', key2, '; '.join(problems), site_of(f.body))
     rep.floor('guard-use', 3, 'boxcox, boxcox_shifted, logit')
     rep.floor('boxcox-formula', 2, 'boxcox, boxcox_shifted')
 
